@@ -144,3 +144,12 @@ check(
     "exhaustive configuration enumeration with a client-side reachability oracle",
     "DESIGN.md section 3 C18",
 )
+
+check(
+    "C04",
+    "fault_enumeration",
+    "For Hypothesis-generated (back end, metadata kind, prior history, operation) cases the operation's file-system mutations are numbered in a counting run and the process is then killed (os._exit in a forked child) at EVERY mutation, plus after truncation and after half of the bytes of every direct file write, plus after completion; each resulting directory is re-opened and must read as the old or the new state with an intact object graph. Exhaustive over crash points per generated operation; the operations themselves are sampled.",
+    "Trusted: Python audit events enumerate the mutations (an unknown mutating event kind would be missed); process death, not power loss. git fsck --connectivity-only and a dulwich walk check reachability.",
+    "fault injection: exhaustive crash-point enumeration per generated operation (audit-hook kill switch), old-or-new oracle",
+    "DESIGN.md section 3 C04",
+)
